@@ -183,4 +183,30 @@ def isclose [LinearOrder K] (e x : K) : Bool :=
 
 end eig
 
+/-! ## automatic chart choice (`chart_index=None`) -/
+
+section auto
+variable [Field K] {L : Type*} [LinearOrder L]
+
+/-- `np.min(np.abs(apoints), axis=<all point axes>)[c]` for a non-empty family `p₀ :: rest` of
+points; `absf` is `np.abs` (absolute value, complex modulus — or any order-equivalent of it) -/
+def colMin (absf : K → L) (p₀ : Fin (n + 1) → K) (rest : List (Fin (n + 1) → K)) (c : Fin (n + 1)) : L :=
+  rest.foldl (fun m x => min m (absf (x c))) (absf (p₀ c))
+
+/-- `np.argmax(f)`: the first index of a maximal value -/
+def argmaxFirst (f : Fin (n + 1) → L) : Fin (n + 1) :=
+  (List.finRange (n + 1)).foldl (fun best i => if f best < f i then i else best) 0
+
+/-- the chart chosen by `affine_coords(points, chart_index=None)` -/
+def autoChart (absf : K → L) (p₀ : Fin (n + 1) → K) (rest : List (Fin (n + 1) → K)) : Fin (n + 1) :=
+  argmaxFirst (colMin absf p₀ rest)
+
+/-- `affine_coords(points, chart_index=None)`: `(affine, chart)`; `none` is the `GeometryError`
+"points don't lie in any standard affine chart" -/
+def affineCoordsAuto? [DecidableEq K] (absf : K → L) (p₀ : Fin (n + 1) → K)
+    (rest : List (Fin (n + 1) → K)) : Option (List (Fin n → K) × Fin (n + 1)) :=
+  (affineCoordsAll? (autoChart absf p₀ rest) (p₀ :: rest)).map fun as => (as, autoChart absf p₀ rest)
+
+end auto
+
 end GT.Affine
